@@ -56,6 +56,8 @@ def draw_cfg(st):
         "check_context": False,
         "p_clock_jump": [0.0, 0.05][st.choose(2, "clockjump")],
         "finish_inside": True,
+        "reserved_names": True,
+        "exc": P.DEFAULT_EXC + ["ExtractMe", "ExtractSub"],
         "act_styles": [i for i in range(len(P.ACT_STYLES)) if i in (0, 1) or st.choose(2, "style-on")],
         "msg_apis": [0, 1, 2],
         "call_budget": 200000,
@@ -80,6 +82,13 @@ def draw_cfg(st):
     nf = st.weighted([3, 4, 2, 1], "n-faulty")
     cfg["faulty"] = [[list(MASKS[st.choose(len(MASKS), "mask")]), st.choose(6, "exc-kind"),
                       st.choose(2, "before-tap")] for _ in range(nf)]
+    # exception extractors, some of them raising (their traceback is logged in whatever action is current)
+    ex = []
+    for _ in range(st.choose(3, "n-extractors")):
+        cname = ["ExtractMe", "ValueError", "AppError", "OSError", "KeyError"][st.choose(5, "xcls")]
+        if cname not in [c for c, _m in ex]:
+            ex.append([cname, "raise" if st.choose(2, "xmode") else "fields"])
+    cfg["extractors"] = ex
     return cfg
 
 
@@ -93,6 +102,7 @@ def setup(rc, interp):
         rc.faulty.append(d)
         (before if bt else after).append(d)
     rc.eliot.add_destinations(*(before + [rc.tap] + after))
+    rc.setup_extractors(rc.cfg.get("extractors", []))
 
 
 def run_one(seed, dec):
